@@ -42,6 +42,7 @@ META = {
         "not for 2, the tag array is re-created with num_faces entries before the faces are set. R6 tag tables: all_tags "
         "ORs every entry of the standard tag list, the face/node accessor pairs use the face/node list, the face->node tag map "
         "of update_boundary_node_tag maps every standard face tag to the node tag of the same stem. "
+        "R7 no connectivity query is memoised (lru_cache / result kept on self): cell_faces is modified in place by grid splitting. "
         "Not decided: the incidence matrix itself (signs, one or two cells per face - C25/C22), numerical geometry, "
         "fracture/tip tags (set by the meshing code)."),
     "rule_text": "one obligation per (store of the dense array | typed gather | guard | returned array | matrix factor | threshold | "
@@ -55,7 +56,7 @@ META = {
     "technique": "abstract interpretation over index spaces/orderings (permutation algebra) and over (row space, column space, "
                  "signedness) of sparse expressions; cross-module convention agreement for the Kronecker numbering",
 }
-MIN_INSTANCES = {"R1": 5, "R2": 8, "R3": 6, "R4": 11, "R5": 5, "R6": 12}
+MIN_INSTANCES = {"R1": 5, "R2": 8, "R3": 6, "R4": 11, "R5": 5, "R6": 12, "R7": 9}
 
 FIND_LIKE = {"sparse_array_to_row_col_data", "find"}
 
@@ -938,6 +939,39 @@ def rule_tag_tables(ctx: Ctx, mod, tmod) -> None:
 
 
 # =====================================================================================
+#  R7  queries are recomputed from the current incidence (no memoisation)
+# =====================================================================================
+
+QUERIES = ["cell_faces_as_dense", "cell_connection_map", "signs_and_cells_of_boundary_faces", "cell_nodes", "num_cell_nodes",
+           "divergence", "trace", "get_all_boundary_faces", "get_boundary_faces"]
+CACHE_DECORATORS = ("lru_cache", "cache", "cached_property", "memoize", "memoized")
+
+
+def rule_fresh_queries(ctx: Ctx, mod) -> None:
+    cls = mod.cls("Grid")
+    for name in QUERIES:
+        fn = mod.func("Grid." + name)
+        decs = [u(d) for d in fn.decorator_list]
+        cached = [d for d in decs if any(d.split("(")[0].split(".")[-1] == c for c in CACHE_DECORATORS)]
+        # memo pattern: an attribute of self that is assigned in the query and also returned / tested
+        stored = {t.attr for n in ast.walk(fn) if isinstance(n, (ast.Assign, ast.AnnAssign, ast.AugAssign))
+                  for t in (n.targets if isinstance(n, ast.Assign) else [n.target])
+                  if isinstance(t, ast.Attribute) and isinstance(t.value, ast.Name) and t.value.id == "self"}
+        stored |= {n.args[1].value for n in ast.walk(fn) if isinstance(n, ast.Call) and call_name(n) == "setattr" and len(n.args) == 3
+                   and isinstance(n.args[1], ast.Constant) and isinstance(n.args[1].value, str)}
+        read_back = {n.attr for r in ast.walk(fn) if isinstance(r, ast.Return) and r.value is not None for n in ast.walk(r.value)
+                     if isinstance(n, ast.Attribute) and isinstance(n.value, ast.Name) and n.value.id == "self" and n.attr in stored}
+        memo_dicts = [n for n in ast.walk(fn) if isinstance(n, ast.Subscript) and isinstance(n.ctx, ast.Store) and isinstance(n.value, ast.Attribute)
+                      and isinstance(n.value.value, ast.Name) and n.value.value.id == "self" and "cache" in n.value.attr.lower()]
+        ok = not cached and not read_back and not memo_dicts
+        ctx.check("R7", ok, mod, "Grid." + name, fn,
+                  f"{name} must be computed from the grid's CURRENT cell_faces/tags on every call: the incidence is modified in place when "
+                  f"a grid is split (fracture propagation), a memoised result is stale afterwards; found "
+                  f"{'decorator ' + cached[0] if cached else ('result kept in self.' + sorted(read_back)[0] if read_back else 'a cache dictionary on self' if memo_dicts else 'nothing')}",
+                  construct=f"{name}: recomputed on every call", facts={"decorators": decs, "stored": sorted(stored)})
+
+
+# =====================================================================================
 #  driver
 # =====================================================================================
 
@@ -946,6 +980,7 @@ def run(ctx: Ctx) -> None:
     mo_mod = ctx.repo.module(MO)
     amod = ctx.repo.module(AO)
     tmod = ctx.repo.module(TAGS)
+    rule_fresh_queries(ctx, mod)  # first: a memoised query is reported even if the typed rules cannot read the new form
     P = dense_producer(ctx)  # R1: reused from C17 (same obligations, recorded under this property)
     ctx.sample({"rule": "R1", "producer": {k: v for k, v in P.items()}})
     rule_signs_and_cells(ctx, mod, mo_mod)
@@ -1002,6 +1037,10 @@ MUTANTS = [
     _m("signs-negated-on-return", "        sgn, ci = sgn[IC], ci[IC]\n        return sgn, ci", "        sgn, ci = sgn[IC], ci[IC]\n        return -sgn, ci", "R2"),
     _m("cell-nodes-needs-two-faces", "mat = (self.face_nodes @ np.abs(self.cell_faces)) > 0", "mat = (self.face_nodes @ np.abs(self.cell_faces)) > 1", "R3"),
     _m("boundary-faces-set-false", '            self.tags["domain_boundary_faces"][bd_faces] = True', '            self.tags["domain_boundary_faces"][bd_faces] = False', "R5"),
+    # ---- R7 memoisation
+    _m("connection-map-lru-cached", "    def cell_connection_map(self) -> sps.csr_matrix:", "    @lru_cache\n    def cell_connection_map(self) -> sps.csr_matrix:", "R7"),
+    _m("boundary-faces-kept-on-self", "        return self._indices(tags.all_face_tags(self.tags))",
+       "        self._all_bnd = self._indices(tags.all_face_tags(self.tags))\n        return self._all_bnd", "R7"),
     # ---- R5 boundary tag
     _m("boundary-count-per-cell", "np.diff(self.cell_faces.tocsr().indptr) == 1", "np.diff(self.cell_faces.tocsc().indptr) == 1", "R5", control=True),
     _m("boundary-at-least-one-cell", "np.diff(self.cell_faces.tocsr().indptr) == 1", "np.diff(self.cell_faces.tocsr().indptr) >= 1", "R5"),
